@@ -278,7 +278,7 @@ class RustOracle:
         return {"string": "String", "RegExp": "String", "DocumentUri": "Url", "URI": "Url", "decimal": "Decimal",
                 "integer": "i32", "uinteger": "u32", "boolean": "bool"}[n]
 
-    def map(self, t: dict, got: Optional[str], locus: str) -> str:
+    def map(self, t: dict, got: Optional[str], locus: str, top: bool = False) -> str:
         """Expected canonical Rust type for metamodel type t.  `got` (the emitted type at this position,
         Option stripped) is only consulted to resolve the plugin-chosen names of literal structs."""
         k = t["kind"]
@@ -306,10 +306,16 @@ class RustOracle:
             return "(" + ",".join(subs) + ")" if len(subs) >= 2 else subs[0]
         if k == "or":
             items = [it for it in t["items"] if not self.m.is_null(it)]
+            nullable = len(items) != len(t["items"]) and not top
+            if nullable:
+                # a null-admitting union below the property level (array element, map value...) is an Option
+                _, got = self.strip_option(got) if got else (False, got)
             if len(items) == 1:
-                return self.map(items[0], got, locus)
-            gots = [self._generic_arg(got, f"OR{len(items)}", i) for i in range(len(items))]
-            return f"OR{len(items)}<" + ",".join(self.map(it, g, f"{locus}|{i}") for i, (it, g) in enumerate(zip(items, gots))) + ">"
+                inner = self.map(items[0], got, locus)
+            else:
+                gots = [self._generic_arg(got, f"OR{len(items)}", i) for i in range(len(items))]
+                inner = f"OR{len(items)}<" + ",".join(self.map(it, g, f"{locus}|{i}") for i, (it, g) in enumerate(zip(items, gots))) + ">"
+            return f"Option<{inner}>" if nullable else inner
         if k == "literal":
             props = t["value"]["properties"]
             if not props:
@@ -391,7 +397,7 @@ class RustOracle:
             self.evaluations += 1
             if is_opt != exp_opt:
                 self.fail("option-wrap", f"{sname}.{name}", f"type {f['type']}, Option expected: {exp_opt}")
-            exp = self.map(p["type"], inner, f"{locus_prefix}.{name}")
+            exp = self.map(p["type"], inner, f"{locus_prefix}.{name}", top=True)
             self.evaluations += 1
             if exp != inner:
                 self.fail("field-type", f"{sname}.{name}", f"type {inner}, expected {exp}")
@@ -561,7 +567,7 @@ class RustOracle:
                             self.fail("message-fields", rname, "no result field")
                         else:
                             is_opt, inner = self.strip_option(rf["result"]["type"])
-                            exp = "LSPNull" if m.is_null(rt) else self.map(rt, inner, f"request:{msg['method']}:result")
+                            exp = "LSPNull" if m.is_null(rt) else self.map(rt, inner, f"request:{msg['method']}:result", top=True)
                             if inner != exp:
                                 self.fail("result-type", rname, f"{inner}, expected {exp}")
                             exp_opt = m.admits_null(rt)
